@@ -324,3 +324,47 @@ Example date_examples :
   timestamp_of_date 2038 1 19 3 14 8 = 2147483648%N /\
   timestamp_of_date 2026 9 26 0 0 0 = 1790380800%N.
 Proof. vm_compute. auto. Qed.
+
+(* ---- Serial from a point in time ----------------------------------------- *)
+Lemma serial_of_time_u32 secs : u32 (serial_of_time secs).
+Proof.
+  unfold serial_of_time, u32, M32. cbv [from_time_cast_wraps].
+  pose proof (Z.mod_pos_bound secs 4294967296 ltac:(lia)). lia.
+Qed.
+
+(* the conversion commutes with adding seconds: converting a time k seconds
+   later is Serial::add of k, for every k the addition accepts *)
+Lemma from_time_add secs k : (0 <= k <= 2147483647)%Z ->
+  serial_add (serial_of_time secs) (Z.to_N k) = Ok (serial_of_time (secs + k)).
+Proof.
+  intros Hk. rewrite add_total by lia. f_equal.
+  unfold serial_of_time, M32. cbv [from_time_cast_wraps].
+  pose proof (Z.mod_pos_bound secs 4294967296 ltac:(lia)).
+  pose proof (Z.mod_pos_bound (secs + k) 4294967296 ltac:(lia)).
+  lia.
+Qed.
+
+(* a later point in time (1 <= k <= 2^31-1 seconds) converts to a strictly
+   greater serial, before 1970, across 2038 and across the 2106 wrap alike *)
+Lemma time_later_is_greater secs k : (1 <= k <= 2147483647)%Z ->
+  serial_partial_cmp (serial_of_time secs) (serial_of_time (secs + k)) = Ok (Some Lt).
+Proof.
+  intros Hk.
+  destruct (add_gt (serial_of_time secs) (Z.to_N k) (serial_of_time_u32 secs)) as (s & Hs & _ & Hlt & _);
+    [lia|].
+  rewrite from_time_add in Hs by lia. injection Hs as <-. exact Hlt.
+Qed.
+
+(* both routes to a signature time agree: the date notation and the conversion *)
+Lemma from_time_is_date_notation secs : serial_of_time secs = timestamp_of_secs secs.
+Proof. unfold serial_of_time, timestamp_of_secs. cbv [from_time_cast_wraps date_cast_wraps]. reflexivity. Qed.
+
+Example from_time_examples :
+  serial_of_time 0 = 0%N /\
+  serial_of_time 4294967295 = 4294967295%N /\
+  serial_of_time 4294967296 = 0%N /\            (* 2106-02-07 06:28:16 *)
+  serial_of_time 4294967297 = 1%N /\
+  serial_of_time (-1) = 4294967295%N /\         (* 1969-12-31 23:59:59 *)
+  serial_of_time 253402207200 = 4294104032%N /\ (* jiff's maximum *)
+  serial_partial_cmp (serial_of_time 4294967290) (serial_of_time 4294967300) = Ok (Some Lt).
+Proof. vm_compute. auto 10. Qed.
